@@ -7,10 +7,13 @@ mod circ;
 mod consts;
 mod exhaust;
 mod front;
+mod joinprog;
 mod lit;
+mod opprog;
 mod panicrec;
 mod prog;
 mod sexp;
+mod sortnet;
 
 use sexp::*;
 
@@ -42,6 +45,9 @@ fn run_job(job: &Sexp) -> String {
         "pretty" => front::job_pretty(job),
         "front" => front::job_front(job),
         "consts" => consts::job_consts(job),
+        "opprog" => opprog::job_opprog(job),
+        "sortnet" => sortnet::job_sortnet(job),
+        "joinprog" => joinprog::job_joinprog(job),
         "panicrec" => panicrec::job_panicrec(job),
         "panicparse" => panicrec::job_panicparse(job),
         "panicprog" => panicrec::job_panicprog(job),
